@@ -156,6 +156,7 @@ class Engine:
         self.loop_ids = loops_in(self.fn)
         self.unroll = unroll or c.unroll
         self.obligations = {}
+        reset_fresh()
         work = [[]]
         npaths = 0
         while work:
